@@ -48,7 +48,8 @@ ASSUME = [
 ]
 
 COUNTERS = {0: "cells_run", 1: "connections_with_both_ends_created", 2: "sides_expected_EINVAL", 3: "sides_must_refuse_and_refused",
-            4: "sides_must_accept_and_fully_usable", 5: "sides_either", 6: "sides_stricter_than_documented", 7: "side_judgements"}
+            4: "sides_must_accept_and_fully_usable", 5: "sides_either", 6: "sides_stricter_than_documented", 7: "side_judgements",
+            8: "cells_void_utls_went_over_ux"}
 
 DEFAULT_MENU = 0x001 | 0x002 | 0x004 | 0x008 | 0x010 | 0x020 | 0x040 | 0x080 | 0x100 | 0x200 | 0x400
 
@@ -194,6 +195,10 @@ def run(chk, tier, jobs, deadline):
         for s in smp[-1:] if len(per_cfg) % 2 else smp[:1]:
             if len(samples) < 12 and (bound or len(per_cfg) % 7 in (1, 2, 4)):
                 samples.append(dict(scenario=params.replace(",pki=" + PKI, ""), execution=s))
+    if counters[8]:
+        # a hole in the matrix (only possible when the explorer could not give its workers a private network namespace)
+        completed_all = False
+        chk.info("C09/void-cells", "%d cell(s) were not judged because a utls connection went over UX to a foreign process" % counters[8])
     cells = sum(c.get("cells") or 0 for c in per_cfg)
     chk.add_cov(states=tot["states"], transitions=tot["transitions"], traces_validated_against_impl=tot["executions"],
                 executions=tot["executions"], cells=cells, handshakes=counters[1], oracle_judgements=counters[7],
